@@ -272,7 +272,8 @@ def main():
     # ---- extended search when the tie is broken but no failing input yet
     tie_broken = bool(lean_fail or disagreements)
     if tie_broken and not violations and tier == 'quick' and os.path.exists(common.EVDRV):
-        log('tie broken and no failing input yet: extended search (thorough budget, next seed)')
+        log('tie broken and no failing input yet: extended search (thorough budget, next seed, at most 6 minutes)')
+        os.environ['VERIF_DEADLINE'] = str(time.time() + 360)
         try:
             for m, r in run_suites(spec, 'thorough', seed + 1, log):
                 violations += [(m, v) for v in r.violations if claimed(v, True)]
